@@ -25,6 +25,10 @@ DIRECTED = [
     [("mutate_params", 0, ["reg", 1]), ("create", 1, ["slp", "P"]), ("create", 2, ["slp", "G"]), ("weak_form", 1, []), ("weak_form", 2, []), ("weak_form", 1, [])],
     [("mutate_params", 0, ["sing", 3]), ("create", 1, ["hyp", "P"]), ("mutate_params", 0, ["sing", 4]), ("weak_form", 1, []), ("mutate_params", 0, ["sing", 3]), ("weak_form", 1, [])],
     [("mutate_params", 0, ["reg", 1]), ("create", 1, ["idt", "P"]), ("weak_form", 1, []), ("create", 2, ["pot", "P"]), ("mutate_params", 0, ["reg", 4]), ("evaluate", 2, [])],
+    # strong form of operators with an explicit object: the mass matrix follows the object, not the global order (shortest
+    # counterexample of History_explicitmass.cfg, the code before fix d373db3), also when the object is mutated before the first use
+    [("set_global", 0, ["reg", 1]), ("create", 1, ["slp", "P"]), ("strong_form", 1, [])],
+    [("create", 1, ["idt", "P"]), ("create", 2, ["idt", "G"]), ("mutate_params", 0, ["reg", 1]), ("strong_form", 1, []), ("strong_form", 2, []), ("mass_matrix", 0, [])],
     # global changed between construction and first assembly, and after it
     [("create", 1, ["slp", "G"]), ("set_global", 0, ["reg", 1]), ("weak_form", 1, []), ("set_global", 0, ["reg", 4]), ("weak_form", 1, []), ("strong_form", 1, [])],
     [("create", 1, ["pot", "G"]), ("set_global", 0, ["reg", 1]), ("evaluate", 1, []), ("create", 2, ["pot", "G"]), ("evaluate", 2, []), ("evaluate", 1, [])],
@@ -98,15 +102,11 @@ def body():
             call = what.split("(")[1].split(")")[0] if "(" in what else "?"
             chk.violation("history:%s" % call, "trace rejected by HistoryTrace: %s; history %s" % (what, calls), {"trace": t["events"]})
     chk.sample({"directed_history": DIRECTED[0], "recorded": traces[0]["events"] if traces else None})
-    # (4) the recorded finding: explicit objects are not consulted for the mass matrix of strong_form
+    # (4) second negative control: the code before fix d373db3 (mass matrix of strong_form always from the global object) must violate NoInterference
     em = common.run_tlc("History", "History_explicitmass.cfg", timeout=3000)
-    chk.add_tlc("History with ExplicitHonouredByMass", em, note="expected to fail: recorded finding")
-    if not em.ok and em.violated == "ExplicitHonouredByMass":
-        hist = [{"call": c, "slot": s, "arg": a} for c, s, a in [("set_global", 0, ["reg", 1]), ("create", 1, ["slp", "P"]), ("strong_form", 1, [])]]
-        ev, _ = rh.record(api, hist, ref)
-        if ev[-1]["res"] == [[4, 4, 1]]:
-            chk.violation("explicit:strong_form_mass", "strong_form of an operator with an explicit parameter object (regular order 4) uses a mass matrix assembled at the "
-                          "global order 1: %s" % ev, {"trace": ev})
+    chk.add_tlc("History negative control (explicit object ignored by the mass matrix)", em, note="must violate NoInterference")
+    if em.ok or "NoInterference" not in str(em.violated):
+        raise common.MachineryError("negative control History_explicitmass.cfg did not violate NoInterference (got %s)" % em.violated)
     # (5) single vs double precision
     try:
         g = api.Grid(rh.V, rh.E)
